@@ -7,7 +7,8 @@
 //     and a "presel:" yield precedes the statement;
 //  2. X.Lock/RLock/Unlock/RUnlock() (also deferred) -> simhook.Lock(&X) ... (try-lock loops under a simulator);
 //  3. go f(args)        -> operands evaluated at the go statement, then simhook.Go(role, func(){ f(tmp...) });
-//  4. a "pre:"/"post:" yield around every statement that is a channel send, receive, close(ch) or X.Wait().
+//  4. a "pre:"/"post:" yield around every statement that is a channel send, receive, close(ch) or X.Wait(),
+//     and a "lock:" yield before every statement that is a Lock()/RLock() call.
 //
 // Usage: simrewrite [-min-selects N -min-locks N -min-gos N -min-chanops N] <dir>...
 // Every non-test .go file of each dir whose build constraints hold under the tag "verif" is rewritten in place.
@@ -257,6 +258,16 @@ func rewriteFile(path string) {
 			if rewriteLockCall(n) {
 				changed++
 				counts["locks"]++
+			}
+		}
+		if es, ok := c.Node().(*ast.ExprStmt); ok && c.Index() >= 0 {
+			// a scheduling point before every lock acquisition
+			if call, ok := es.X.(*ast.CallExpr); ok {
+				if se, ok := call.Fun.(*ast.SelectorExpr); ok && len(call.Args) == 0 && (se.Sel.Name == "Lock" || se.Sel.Name == "RLock") && addressable(se.X) {
+					line := fset.Position(es.Pos()).Line
+					c.InsertBefore(parseStmt(fmt.Sprintf("simhook.Yield(\"\", \"lock:%s:%d\")", base, line)))
+					counts["lockyields"]++
+				}
 			}
 		}
 		if st, ok := c.Node().(ast.Stmt); ok && stmtBlocks(st) && c.Index() >= 0 {
